@@ -34,6 +34,8 @@ def load(paths):
             bodies[b.name] = b
         dep_prefixes.append(crate + '::')
     adts = Adts(paths['rd'])
+    if os.path.exists(paths.get('hrd', '')):
+        adts.load(paths['hrd'], harness=True)
     it = Interp(bodies, adts)
     it.dep_crates = dep_prefixes
     ops = {}
